@@ -8,10 +8,36 @@ from ..lhamodel.lz import expand
 
 LEVEL = 'exploration'
 _EXE = None
-SOURCES = ['uniform314', 'uniform256', 'zipf', 'two', 'one', 'roundrobin', 'bursts', 'copies-heavy', 'ramp']
+SOURCES = ['uniform314', 'uniform256', 'zipf', 'two', 'one', 'roundrobin', 'bursts', 'copies-heavy', 'ramp', 'fibonacci']
+
+
+def gen_fibonacci(rnd, nsym):
+    """Frequencies growing like a Fibonacci sequence make the adaptive tree as skewed as the 0x8000 frequency total allows:
+    codes of 17 and 18 bits (the model's arithmetic has no 16-bit limit; nor may the decoder's).  Then every symbol is used
+    while the tree is that deep, and the stream goes on through rebuilds."""
+    cmds = []
+    ratio = rnd.choice([1.62, 1.66, 1.7])
+    s = rnd.choice([180.0, 200.0, 230.0])
+    syms = rnd.sample(range(256), 14)
+    emitted = 0
+    for i in range(14):
+        for _ in range(int(s)):
+            if emitted >= 32400:
+                break
+            cmds.append(('L', syms[i]))
+            emitted += 1
+        s *= ratio
+    deep = [('L', v) for v in range(256) if v not in syms] + [('C', rnd.randrange(1, 4097), n) for n in range(3, 61)]
+    rnd.shuffle(deep)
+    cmds += deep[:150]
+    while len(cmds) < nsym:
+        cmds.append(('L', rnd.randrange(256)) if rnd.random() < 0.8 else ('C', rnd.randrange(1, 4097), rnd.randrange(3, 61)))
+    return cmds
 
 
 def gen(rnd, source, nsym):
+    if source == 'fibonacci':
+        return gen_fibonacci(rnd, max(nsym, 36000))
     cmds = []
     outlen = 0
     cp = {'copies-heavy': 0.8, 'one': 0.0, 'two': 0.05}.get(source, rnd.choice([0.0, 0.1, 0.3]))
@@ -92,6 +118,7 @@ def shard(seed, specs):
         sh.count('tree_rebuilds', st['reconsts'])
         sh.count('tie_exchanges', st['tie_exchanges'])
         sh.count('exchanges', st['exchanges'])
+        sh.cov['max_code_bits'] = max(sh.cov.get('max_code_bits', 0), st['max_code_bits'])
         sh.count('output_bytes', len(exp))
         sh.hist('streams_by_source', st['source'])
         sh.hist('streams_by_rebuilds', min(st['reconsts'], 10))
@@ -130,6 +157,8 @@ def run(ctx):
     for i, ls in enumerate(long_streams):
         args.append((ctx.seed * 2003 + i, [ls]))
     core.run_shards(ctx, shard, args)
+    if ctx.cov.get('max_code_bits', 0) < 17:
+        raise core.HarnessFailure('workload never produced a code longer than 16 bits (max %s)' % ctx.cov.get('max_code_bits'))
     if ctx.cov.get('tree_rebuilds', 0) < 2 or ctx.cov.get('tie_exchanges', 0) < 100:
         raise core.HarnessFailure('workload produced too few rebuilds / tie exchanges to say anything')
     ctx.cov['rule'] = ('streams = LZHUF reference encoder (vlib/lhamodel/lzhuf.py) applied to generated command lists from %d symbol '
